@@ -25,7 +25,7 @@ FLTCONV = "eEfgG"
 VALUES = [("i", 0), ("i", 1), ("i", -1), ("i", 42), ("i", -42), ("i", I64MIN), ("i", I64MAX), ("i", -2 ** 31), ("i", 2 ** 31 - 1),
           ("i", 255), ("i", 2 ** 32 + 1), ("i", 2 ** 32 - 1), ("i", 100000), ("i", 8), ("i", 120),
           ("s", "abc", 0, "0"), ("s", "", 0, "0"), ("s", "42x", 42, "42"), ("s", "hello, world", 0, "0"),
-          ("c", "x"),
+          ("c", "x"), ("m", "abc", 0, "0"), ("y", "x"),        # m: byte string @b"abc", y: byte character @b'x' (not in the Lean model: compared with C only)
           ("f", "1.5", 1.5), ("f", "-0.0", -0.0), ("f", "0.000123", 0.000123), ("f", "100000.0", 100000.0),
           ("f", "-2.5", -2.5), ("f", "1234567.0", 1234567.0), ("f", "0.5", 0.5), ("f", "1e+20", 1e20)]
 CORE_VALUES = [("i", 0), ("i", 42), ("i", -42), ("i", I64MIN), ("i", 255), ("s", "abc", 0, "0"), ("s", "", 0, "0"), ("c", "x"),
@@ -35,22 +35,22 @@ CORE_VALUES = [("i", 0), ("i", 42), ("i", -42), ("i", I64MIN), ("i", 255), ("s",
 def v_toint(v):            # hawk_rtx_valtoint
     if v[0] == "i": return v[1]
     if v[0] == "f": return int(v[2])
-    if v[0] == "s": return v[2]
-    return 0               # char (converted like a one-character string), nil
+    if v[0] in ("s", "m"): return v[2]
+    return 0               # char / byte char (converted like a one-character string), nil
 
 
 def v_tostr(v):            # hawk_rtx_valtooocstrdup with the default CONVFMT
     if v[0] == "i": return str(v[1])
     if v[0] == "f": return "%.6g" % v[2]
-    if v[0] == "s": return v[1]
-    if v[0] == "c": return v[1]
+    if v[0] in ("s", "m"): return v[1]
+    if v[0] in ("c", "y"): return v[1]
     return ""
 
 
 def v_toflt(v):            # text of the long double hawk_rtx_valtoflt yields
     if v[0] == "i": return str(v[1])
     if v[0] == "f": return v[1]
-    if v[0] == "s": return v[3]
+    if v[0] in ("s", "m"): return v[3]
     return "0"
 
 
@@ -66,6 +66,8 @@ def arg_token(v):
     if v[0] == "f": return "f:%s:%d:%s" % (v[1], int(v[2]), hx(v_tostr(v)))
     if v[0] == "s": return "s:%s:%d" % (hx(v[1]), v[2])
     if v[0] == "c": return "c:%d:0" % ord(v[1])
+    if v[0] == "m": return "m:" + hx(v[1])
+    if v[0] == "y": return "y:%d" % ord(v[1])
     return "n:"
 
 
@@ -85,7 +87,7 @@ def c_equiv(conv, v, mbs):
         if v[0] == "n": return None
         if v[0] in "if":
             code = v_toint(v) % (256 if mbs else 65536)
-        elif v[0] == "s":
+        elif v[0] in ("s", "m"):
             if v[1] == "" and mbs: return None
             code = ord(v[1][0]) if v[1] else 0
         else:
@@ -173,6 +175,8 @@ def show_val(v):
     if v[0] == "f": return v[1]
     if v[0] == "s": return '"%s"' % v[1]
     if v[0] == "c": return "'%s'" % v[1]
+    if v[0] == "m": return '@b"%s"' % v[1]
+    if v[0] == "y": return "@b'%s'" % v[1]
     return "@nil"
 
 
@@ -246,6 +250,8 @@ def random_case(rng):
     """seeded sample: flags in random order with repetitions, random widths/precisions (also large), every value"""
     k = rng.random()
     nfl = rng.choice([0, 1, 1, 2, 2, 3, 4, 5, 7])
+    if rng.random() < 0.03:      # long specifier texts: fmt.c recomposes the float specifier in a 32-byte buffer, the format buffers start at 256 characters
+        nfl = rng.choice(list(range(22, 36)) + [250, 255, 256, 257, 300])
     flags = "".join(rng.choice(FLAGCHARS) for _ in range(nfl))
     r = rng.random()
     if r < 0.25: w = None
@@ -539,6 +545,10 @@ def hawk_literal(v):
         return '"%s"' % v[1]
     if v[0] == "c":
         return "'%s'" % v[1]
+    if v[0] == "m":
+        return '@b"%s"' % v[1]
+    if v[0] == "y":
+        return "@b'%s'" % v[1]
     return "@nil"
 
 
@@ -757,6 +767,265 @@ def nested_formatting(ctx, libdir, exe, cases, nwant):
     return len(items)
 
 
+# ---------------------------------------------------------------------------------------------
+# number -> string conversion: every output kind of hawk_rtx_valtostr() and every consumer in the language
+# ---------------------------------------------------------------------------------------------
+# "Conversion of numbers to strings through CONVFMT and OFMT follows the same rule": whoever asks for the text of a number - a
+# caller of hawk_rtx_valtostr() with a fixed buffer, a duplicate, a string buffer; a subscript, a concatenation, a comparison, a
+# string function, print - must get exactly snprintf(CONVFMT|OFMT, value) (the decimal digits for an integer), whatever the length
+# of that text is relative to the buffers on the way (HAWK_IDX_BUF_SIZE = 64 cells for subscripts, 63/126 in fmt.c, 31 characters of
+# specifier in fmt.c, 256 in the string buffers, 4096 in the formatter scratch buffer).
+BOUNDARY_LENGTHS = [1, 2, 7, 15, 16, 17, 30, 31, 32, 33, 62, 63, 64, 65, 66, 126, 127, 128, 129, 254, 255, 256, 257, 258, 511, 512, 513, 4095, 4096, 4097]
+
+
+def _len_formats(quick):
+    """(format, float text) whose conversion has one of the boundary lengths, reached in different ways"""
+    out = []
+    for n in BOUNDARY_LENGTHS:
+        if n >= 3: out.append(("%%.%df" % (n - 2), "0.5"))                 # 0.5000...  precision drives the length
+        if n >= 8: out.append(("%%%d.3f" % n, "-2.5"))                     # right justified: the last character is a digit
+        if n >= 10 and (not quick or n in (31, 32, 63, 64, 65, 127, 256)):
+            out.append(("%%-%d.2e" % n, "1234.5"))                          # left justified: the last character is a blank
+            out.append(("%%0%dg" % n, "0.000123"))
+    # long specifier text (fmt.c keeps the recomposed specifier in 32 bytes, the format buffers start at 256 characters)
+    for k in (24, 25, 26, 27, 28, 29, 30, 250, 256):
+        out.append(("%" + "-" * k + "9.3f", "1.5"))
+        out.append(("%" + "+" * k + ".2e", "2.5"))
+    out += [("%.6g", "3.14159"), ("%.3g", "100000.0"), ("%d", "65.25"), ("%s", "0.25"), ("%c", "65.25"), ("%5.1f|%%", "2.5")]
+    return out
+
+
+def _c_text_of(exe, pairs):
+    """snprintf(fmt with L, value) for plain float specifiers; None where C has no counterpart (%d %s %c of a float ...)"""
+    req, idx = [], []
+    for k, (f, v) in enumerate(pairs):
+        conv = [i for i, ch in enumerate(f) if ch in FLTCONV]
+        if not conv or any(ch in f for ch in "dscxy*"): continue
+        i = conv[-1]
+        req.append("R\t%s\t%s" % (hx(f[:i] + "L" + f[i:]), v)); idx.append(k)
+    res = [None] * len(pairs)
+    if req:
+        ro, _, _ = run_harness_par(exe, req, nproc=4)
+        for k, o in zip(idx, ro):
+            if o.startswith("C=") and o != "C=NA": res[k] = "".join(chr(x) for x in units(o[2:]))
+    return res
+
+
+INT_TEXT_VALUES = [0, 1, -1, 9, 10, -10, 99, 100, 42, -42, 255, 99999, 100000, 2 ** 31 - 1, -2 ** 31, 2 ** 32, 10 ** 18 - 1, 10 ** 18, -10 ** 18, I64MAX, I64MIN]
+K_KINDS = ["cpl", "cplcpy", "cpldup", "strp", "strpcat", "oodup", "bdup", "getoo", "getb"]
+
+
+def judge_k(line, o):
+    """property oracle for one K line of the harness (the expected C text travels in the line as exp=<hex>)"""
+    f = line.split("\t")
+    kind, bl, pre, arg = f[1], int(f[3]), "".join(chr(x) for x in units_hex(f[4])), f[5]
+    T = "".join(chr(x) for x in units_hex(f[6][4:]))
+    if not o.startswith("K="):
+        return "no result (%s)" % o
+    fields = dict(x.split("=", 1) for x in o.split(" "))
+    rc, ln, z = int(fields["K"]), int(fields["len"]), fields["z"]
+    text = None if fields["text"] == "NA" else "".join(chr(x) for x in units(fields["text"]))
+    want = pre + T if kind == "strpcat" else T
+    isstr = arg[0] in "sm"
+    fixed = kind == "cplcpy" or (kind == "cpl" and not arg.startswith("s:"))
+    if fixed and bl <= len(T):
+        if rc >= 0: return "succeeds with %r (length %d) although the buffer of %d cells cannot hold the %d characters and the terminator" % (text, ln, bl, len(T))
+    elif rc < 0:
+        return "fails (error %s)" % fields["e"]
+    elif text != want or ln != len(want):
+        return "gives %s (length %d), expected %s (length %d)" % (show(tuple(map(ord, text))) if text is not None else None, ln, show(tuple(map(ord, want))), len(want))
+    elif z != "1" and not (kind == "cpl" and isstr):
+        return "the text is not terminated"
+    return None
+
+
+def valtostr_api_check(ctx, exe):
+    """hawk_rtx_valtostr() called directly with each output kind (and OFMT with HAWK_RTX_VALTOSTR_PRINT), plus hawk_rtx_valtooocstrdup /
+    valtobcstrdup / getvaloocstr / getvalbcstr: the text must be the C text; a fixed buffer either receives the whole text
+    (with its terminator) or the call fails - never a shortened text"""
+    quick = ctx.tier == "quick"
+    lf = _len_formats(quick)
+    ctext = _c_text_of(exe, lf)
+    lines, exp = [], []       # exp: None | (kind, buflen, pre, T, desc)
+    pres = ["", "pre", "x" * 15, "x" * 16, "x" * 17, "y" * 255]
+
+    def emit(kind, pflag, bl, pre, arg, T, desc):
+        lines.append("\t".join(["K", kind, pflag, str(bl), hx(pre), arg, "exp=" + hx(T)])); exp.append((kind, bl, pre, T, desc))
+
+    def all_kinds(pflag, arg, T, desc, k):
+        n = len(T)
+        for bl in sorted({1, max(1, n - 1), n, n + 1, n + 2, 64, 65}):
+            emit("cplcpy", pflag, bl, "", arg, T, desc)
+            if bl in (n, n + 1): emit("cpl", pflag, bl, "", arg, T, desc)
+        for kind in ("cpldup", "strp", "oodup", "bdup", "getoo", "getb"):
+            if pflag == "p" and kind not in ("cpldup", "strp"): continue      # the relatives take no PRINT flag: always CONVFMT
+            emit(kind, pflag, 0, pres[k % len(pres)] if kind == "strp" else "", arg, T, desc)
+        for j in range(2):
+            emit("strpcat", pflag, 0, pres[(k + j) % len(pres)], arg, T, desc)
+    for cl in corpus_cases():                 # minimised past failures first (G and K lines of corpus/C12/*)
+        cf = cl.split("\t")
+        if cf[0] == "G":
+            lines.append(cl); exp.append(None)
+        elif cf[0] == "K" and len(cf) > 6:
+            lines.append(cl)
+            exp.append((cf[1], int(cf[3]), "".join(chr(x) for x in units_hex(cf[4])), "".join(chr(x) for x in units_hex(cf[6][4:])), "corpus case %s" % cf[5]))
+    k = 0
+    for (f, v), T in zip(lf, ctext):
+        if T is None: continue
+        # CONVFMT = f, OFMT = something else: the plain call must use CONVFMT, the PRINT call OFMT; then the other way round
+        lines += ["G\tCONVFMT\t" + hx(f), "G\tOFMT\t" + hx("%.2e")]; exp += [None, None]
+        all_kinds("-", "f:" + v, T, "CONVFMT=%r, value %s" % (f, v), k)
+        lines += ["G\tCONVFMT\t" + hx("%.3g"), "G\tOFMT\t" + hx(f)]; exp += [None, None]
+        all_kinds("p", "f:" + v, T, "OFMT=%r (HAWK_RTX_VALTOSTR_PRINT), value %s" % (f, v), k + 1)
+        k += 2
+    lines += ["G\tCONVFMT\t" + hx("%.6g"), "G\tOFMT\t" + hx("%.6g")]; exp += [None, None]
+    for v in INT_TEXT_VALUES:
+        all_kinds("-" if k % 2 else "p", "i:%d" % v, str(v), "integer %d" % v, k); k += 1
+    for ch in "xA0":
+        for kind in ("cplcpy", "cpldup", "strp", "strpcat", "oodup", "bdup", "getoo", "getb"):
+            emit(kind, "-", 2, "pre" if kind in ("strp", "strpcat") else "", "c:%d" % ord(ch), ch, "character %r" % ch)
+            emit(kind, "-", 2, "pre" if kind in ("strp", "strpcat") else "", "y:%d" % ord(ch), ch, "byte character %r" % ch)
+    for sv in ["", "hello", "a" * 63, "b" * 64, "c" * 65, "d" * 300]:
+        all_kinds("-", "s:" + hx(sv), sv, "string of %d characters" % len(sv), k); k += 1
+        all_kinds("-", "m:" + hx(sv), sv, "byte string of %d characters" % len(sv), k); k += 1
+    hout, st, errtxt = run_harness_par(exe, lines, nproc=1)      # one process: G lines set the state for the K lines that follow
+    mout = run_driver_par(ctx, lines, nproc=1)
+    nbad = ncorr = 0
+    reported = set()
+    state = {}
+    for i, (l, e, o) in enumerate(zip(lines, exp, hout)):
+        if e is None:
+            state[l.split("\t")[1]] = l
+            continue
+        kind, bl, pre, T, desc = e
+        why = judge_k(l, o)
+        if why:
+            nbad += 1
+            tag = (kind, desc.split(",")[0].split(" ")[0])
+            if tag in reported or len(reported) >= 3: continue
+            reported.add(tag)
+            ctx.problem("impl", "NUMBER TO STRING (hawk_rtx_valtostr kind %s, buffer %d): %s: %s" % (kind, bl, desc, why),
+                        "# harness/fmt_h.c lines (G sets a global, K calls hawk_rtx_valtostr); ./check C12 --replay <this file>\n" +
+                        "".join(x + "\n" for x in state.values()) + l + "\n# expected text: %r\n" % (pre + T if kind == "strpcat" else T), found_input=True)
+            continue
+        # correspondence with the Lean model of val_int_to_str / the delivery of a float text / str_to_str
+        m = mout[i] if i < len(mout) else ""
+        if m.startswith("K=") and o.startswith("K="):
+            fo = dict(x.split("=", 1) for x in o.split(" ")); fm = dict(x.split("=", 1) for x in m.split(" "))
+            same = fo["K"] == fm["K"] and (fo["text"] == fm["text"] if fo["K"] == "0" else fo["len"] == fm["len"])
+            if not same:
+                ncorr += 1
+                if ncorr == 1 and not reported:
+                    ctx.problem("corr", "MODEL != CODE: hawk_rtx_valtostr kind %s, buffer %d, %s: harness %r, model (valIntToStr / deliverFlt / strToStr; theorems val_int_to_str_eq_C, "
+                                "val_fixed_buffer_whole_or_fail) %r" % (kind, bl, desc, o[:200], m[:200]), l + "\n", found_input=False)
+    if st != "ok" and not reported:
+        ctx.problem("impl", "harness died (%s) in the hawk_rtx_valtostr run" % st, "# " + errtxt.replace("\n", "\n# ") + "\n", found_input=True)
+    ctx.coverage["valtostr_api"] = dict(calls=sum(1 for e in exp if e), failing=nbad, model_differences=ncorr, kinds=K_KINDS)
+    return sum(1 for e in exp if e)
+
+
+CONSUMER_PREAMBLE = '''function show(tag, s) { printf "%s %d %s\\n", tag, length(s), s; }
+function rcat(&r) { return r ""; }
+function rsub(&r,  m, k) { m[r] = 1; for (k in m) return k; }
+function keys(tag, m,  k, n) { n = 0; for (k in m) { n++; show(tag, k); } if (n != 1) printf "%s COUNT %d\\n", tag, n; }
+'''
+
+
+def conversion_consumers(ctx, libdir, exe):
+    """language level: every consumer of a number's text - concatenation, single and multi-dimensional subscripts (store, enumerate,
+    lookup by the text, `in`, delete), hawk::map keys, comparison with a string, length/index/substr/split/tolower, field assignment,
+    printf %s, print through OFMT - with CONVFMT/OFMT texts of every boundary length. Expected from snprintf."""
+    hawk = os.path.join(libdir, "hawk")
+    quick = ctx.tier == "quick"
+    lf = [(f, v) for f, v in _len_formats(quick) if "%%" not in f and "|" not in f]
+    ctext = _c_text_of(exe, lf)
+    stmts, expect, descs = [], [], []        # one expected output line per entry of expect
+
+    def add(stmt, lines, desc):
+        stmts.append(stmt); expect.append(lines); descs.append(desc)
+
+    def q(sv): return '"' + sv.replace("\\", "\\\\").replace('"', '\\"') + '"'
+    n = 0
+    for (f, v), T in zip(lf, ctext):
+        if T is None or len(T) > 600 and quick and n % 3: 
+            n += 1; continue
+        n += 1
+        L = len(T)
+        pre = 'CONVFMT=%s; OFMT="%%.2e"; x = %s; delete a; ' % (q(f), v)
+        d = "CONVFMT=%r; x = %s (text of %d characters)" % (f, v, L)
+        t = lambda tag: "%s %d %s" % (tag, L, T)
+        add(pre + 'show("cat", x "");', [t("cat")], d + ': x ""')
+        add(pre + 'a[x] = 1; keys("sub", a);', [t("sub")], d + ": a[x] = 1; for (k in a)")
+        add(pre + 'a[x] = 1; print "in", ((x "") in a), (x in a), length(a);', ["in 1 1 1"], d + ': a[x] = 1; ((x "") in a)')
+        add(pre + 'a[x ""] = 7; print "get", a[x], length(a);', ["get 7 1"], d + ': a[x ""] = 7; a[x]')
+        add(pre + 'a[x ""] = 7; delete a[x]; print "del", length(a);', ["del 0"], d + ': a[x ""] = 7; delete a[x]')
+        add(pre + 'a[x] += 2; a[x ""] += 3; print "upd", a[x], length(a);', ["upd 5 1"], d + ': a[x] += 2; a[x ""] += 3')
+        add(pre + 'a[x, 7] = 1; keys("md1", a);', ["md1 %d %s" % (L + 2, T + "\x1c7")], d + ": a[x, 7] = 1")
+        add(pre + 'SUBSEP = "::"; a["p", x, x] = 1; keys("md2", a); SUBSEP = "\\034";', ["md2 %d %s" % (2 * L + 5, "p::" + T + "::" + T)], d + ': SUBSEP="::"; a["p", x, x] = 1')
+        add(pre + 'a[x, 7] = 1; print "mdin", ((x, 7) in a), ((x "", 7) in a), ((x, 8) in a);', ["mdin 1 1 0"], d + ": ((x, 7) in a)")
+        add(pre + 'm = hawk::map(x, 5); keys("map", m);', [t("map")], d + ": hawk::map(x, 5)")
+        add(pre + 'show("ref", rcat(x)); show("rsb", rsub(x)); y = x; gsub(/Q/, "q", y); show("gsb", y);', [t("ref"), t("rsb"), t("gsb")],
+            d + ': function rcat(&r) { return r "" } / subscript through a reference / gsub target')
+        add(pre + 'y = x ""; print "cmp", (x == y), (x == y "z"), (x < y "z"), (y "z" > x);', ["cmp 1 0 1 1"], d + ': y = x ""; (x == y) as strings')
+        add(pre + 'print "len", length(x), index(x, substr(x "", %d)), length(substr(x, 2));' % max(1, L - 2), ["len %d %d %d" % (L, T.find(T[max(1, L - 2) - 1:]) + 1, L - 1)], d + ": length(x), index(x, ...), substr(x, 2)")
+        add(pre + 'show("low", tolower(x)); show("fmt", sprintf("%s", x)); printf "pfs %d %s\\n", length(x), x;', [t("low").replace(T, T.lower()), t("fmt"), t("pfs")], d + ': tolower(x), sprintf("%s", x), printf "%s", x')
+        add(pre + '$0 = "f1 f2 f3"; $2 = x; show("fld", $2); show("rec", $0);', [t("fld"), "rec %d %s" % (L + 6, "f1 " + T + " f3")], d + ": $2 = x")
+        add('CONVFMT="%%.2e"; OFMT=%s; x = %s; print x; print "ofs", x, x;' % (q(f), v), [T, "ofs " + T + " " + T], "OFMT=%r; print %s" % (f, v))
+    for iv in (0, -42, I64MAX, I64MIN + 1):
+        T = str(iv); L = len(T)
+        lit = "(%d)" % iv
+        add('CONVFMT="%%.2e"; OFMT="%%.3e"; delete a; x = %s; a[x] = 1; keys("isub", a); show("icat", x ""); print x; a[x, x] = 2; print "ilen", length(a), length(x);' % lit,
+            ["isub %d %s" % (L, T), "icat %d %s" % (L, T), T, "ilen 2 %d" % L], "integer %d as subscript, in a concatenation and printed (CONVFMT/OFMT do not apply)" % iv)
+    prog = CONSUMER_PREAMBLE + "BEGIN {\n" + "\n".join('print "@@ %d";\n%s' % (i, st_) for i, st_ in enumerate(stmts)) + "\n}\n"
+    pfile = os.path.join(ctx.scratch, "consumers.hawk")
+    open(pfile, "w").write(prog)
+    rc, out, err = C.sh(["timeout", "-s", "KILL", str(120 + len(stmts) // 20), hawk, "-f", pfile], timeout=150 + len(stmts) // 20, env=C.ASAN_ENV)
+    st = C.classify_rc(rc, err.decode(errors="replace"))
+    got = out.decode("utf-8", errors="replace").split("\n")
+    blocks, cur = {}, None
+    for gl in got:
+        if gl.startswith("@@ ") and gl[3:].isdigit():
+            cur = int(gl[3:]); blocks[cur] = []
+        elif cur is not None:
+            blocks[cur].append(gl)
+    if got and got[-1] == "" and cur is not None and blocks[cur] and blocks[cur][-1] == "":
+        blocks[cur].pop()
+    pos = 0
+    nbad = 0
+    reported = set()
+    for si, (stmt, lines, d) in enumerate(zip(stmts, expect, descs)):
+        g = blocks.get(si)
+        if g is None:
+            if st == "ok": g = []
+            else: continue                    # the program died before this statement: reported below
+        pos = si
+        if g == lines: continue
+        nbad += 1
+        tag = lines[0].split(" ")[0]
+        if tag in reported or len(reported) >= 3: continue
+        # confirm on the statement alone
+        p1 = CONSUMER_PREAMBLE + "BEGIN {\n" + stmt + "\n}\n"
+        f1 = os.path.join(ctx.scratch, "consumer_one.hawk")
+        open(f1, "w").write(p1)
+        rc1, o1, e1 = C.sh(["timeout", "-s", "KILL", "30", hawk, "-f", f1], timeout=40, env=C.ASAN_ENV)
+        g1 = o1.decode("utf-8", errors="replace").split("\n")[:len(lines)]
+        st1 = C.classify_rc(rc1, e1.decode(errors="replace"))
+        if st1 == "ok" and g1 == lines:
+            if st != "ok": continue          # the big program died somewhere: reported below
+            continue                          # right when run alone: not reproducible from this statement
+        k = next((i for i in range(len(lines)) if i >= len(g1) or g1[i] != lines[i]), 0)
+        reported.add(tag)
+        gs = g1[k] if k < len(g1) else None
+        ctx.problem("impl", "NUMBER TO STRING (%s): writes %s (%s), but the C text gives %s" % (d, show(tuple(map(ord, gs))) if gs is not None else None, st1, show(tuple(map(ord, lines[k])))),
+                    "# hawk -f <program>; expected output line %d: %r\n# ./check C12 --replay <this file>\nPROG\t%s\t%s\t%d\n# the program:\n# %s\n" %
+                    (k, lines[k], hx(p1), hx(lines[k]), k, (p1 if len(p1) < 3000 else stmt[:3000]).replace("\n", "\n# ")), found_input=True)
+    if st != "ok" and not reported:
+        ctx.problem("impl", "hawk CLI running %d statements that consume number texts ended with %s: %s" % (len(stmts), st, err.decode(errors="replace")[-400:]),
+                    "PROG\t%s\t%s\n" % (hx(prog), hx("")), found_input=True)
+    ctx.coverage["conversion_consumers"] = dict(statements=len(stmts), failing=nbad, lengths=BOUNDARY_LENGTHS)
+    return len(stmts)
+
+
 CONV_FMTS = ["%.6g", "%.3g", "%.0f", "%5.2f|", "%e", "%G", "%-12.4e|", "%+.2f", "%#.3g", "% g", "%010.3f", "%.10g", "%s", "%d", "%x", "%5d|", "%c", "%.*g", "%y", "%g%%", "[%f]"]
 CONV_VALUES = ["3.14159", "1.5", "-0.0", "100000.0", "1000000.0", "1234567.0", "0.000123", "-2.5", "3.0", "0.1", "65.25", "1e-05", "123456789012.0", "1e+18"]
 
@@ -971,7 +1240,7 @@ def run(ctx):
         cases += [Case(*t) for t in full_grid(VALUES)]
         nrand, nmulti = 250000, 60000
     else:
-        nrand, nmulti = 40000, 8000
+        nrand, nmulti = 32000, 6000
     cases += [random_case(rng) for _ in range(nrand)]
     cases += [random_multi(rng) for _ in range(nmulti)]
     ctx.log("generated %d cases (%d corpus)" % (len(cases), ncorpus))
@@ -1026,6 +1295,9 @@ def run(ctx):
     ctx.log("printf through the CLI done")
     evaluations += nested_formatting(ctx, libdir, exe, sub, 700 if ctx.tier == "quick" else 4000)
     ctx.log("nested formatting done")
+    evaluations += valtostr_api_check(ctx, exe)
+    evaluations += conversion_consumers(ctx, libdir, exe)
+    ctx.log("number-to-string consumers done")
     evaluations += convfmt_checks(ctx, libdir, exe)
     evaluations += scratch_growth_check(ctx, exe)
     ctx.log("CONVFMT/OFMT done")
@@ -1080,6 +1352,8 @@ def replay(ctx, path):
     if other:
         out, st, err = run_harness_par(exe, other, nproc=1)
         for l, o in zip(other, out):
-            print(l, "->", o)
+            why = judge_k(l, o) if l.startswith("K\t") and len(l.split("\t")) > 6 else None
+            print(l[:160], "->", o[:200], ("  <<< " + why) if why else "")
+            bad += 1 if why else 0
         if st != "ok": bad += 1
     return 1 if bad else 0
